@@ -76,10 +76,32 @@ def rule_cap(ctx) -> None:
                       f"on some path Plan(ops={X}) is built without the op list having been truncated to the op cap (or ops are appended after the truncation)")
             if capname:
                 cd = [d for d in rd.all_defs if d.name == capname and d.kind == "assign"]
-                okc = bool(cd) and all(isinstance(d.value, ast.Call) and dotted(d.value.func) == "min" and len(d.value.args) == 2 for d in cd)
+                def _is_min2(v):
+                    return isinstance(v, ast.Call) and dotted(v.func) == "min" and len(v.args) == 2
+
+                def _helper_of(d):
+                    # extract-function refactor: `cap = helper(bundle)` where every return of helper is min(a, b)
+                    if isinstance(d.value, ast.Call) and not _is_min2(d.value):
+                        r = ctx.prog.callee(fn, d.value)
+                        if r and r[0] == "func" and r[1] in ctx.prog.funcs:
+                            h = ctx.prog.funcs[r[1]]
+                            rets = [x for x in walk_no_defs(h.node) if isinstance(x, ast.Return)]
+                            if rets and all(x.value is not None and _is_min2(x.value) for x in rets):
+                                return h
+                    return None
+
+                okc = bool(cd) and all(_is_min2(d.value) or _helper_of(d) is not None for d in cd)
                 srcs = set()
                 for d in cd:
-                    srcs |= rd.slice([d.value], d.node).constants()
+                    h = _helper_of(d)
+                    if h is not None:
+                        hrd = ctx.rd(h)
+                        hcfg = ctx.cfg(h)
+                        for hn in hcfg.nodes:
+                            if hn.kind == "stmt" and isinstance(hn.ast, ast.Return) and hn.ast.value is not None:
+                                srcs |= hrd.slice([hn.ast.value], hn).constants()
+                    else:
+                        srcs |= rd.slice([d.value], d.node).constants()
                 okc = okc and {"ops", "t3_ops"} <= srcs
                 ctx.check(okc, "C13.CAP", f"{fn.qual}/cap-is-min-of-turn-and-slice", fn.loc(cd[0].value) if cd else fn.loc(),
                           f"{capname} = min(agent.caps.ops, slice_caps.t3_ops)", f"{capname} is not min(per-turn op cap, per-slice op cap)")
